@@ -143,30 +143,91 @@ func doConfig(repo, outDir string) {
 		}
 		fmt.Fprintf(&b, "def regex_%s : List String := %s\n", name, leanStrList(regexLiterals(pf)))
 	}
-	// NewCpu: `if c.Model != Proc6502 { model = cpu.Model65C02 }`
-	if nc, have := cfns["NewCpu"]; have {
+	// the CPU model selection: anywhere in the package, an `if <x> ==|!= <Proc constant> { model = cpu.ModelA }` with
+	// default cpu.ModelB, or `{ return cpu.ModelA }` followed by `return cpu.ModelB`; normalised to
+	// "<constant value>:<model if equal>:<model otherwise>"
+	if _, have := cfns["NewCpu"]; have {
 		test := ""
-		ast.Inspect(nc.Body, func(n ast.Node) bool {
-			ifs, isIf := n.(*ast.IfStmt)
-			if !isIf || test != "" {
-				return true
+		modelOf := func(e ast.Expr) string {
+			s := exprString(e)
+			if s == "cpu.Model6502" || s == "cpu.Model65C02" {
+				return strings.TrimPrefix(s, "cpu.")
 			}
-			if be, isBin := ifs.Cond.(*ast.BinaryExpr); isBin && exprString(be.X) == "c.Model" {
-				rhs := exprString(be.Y)
-				if v, isConst := consts[rhs]; isConst {
-					rhs = v
+			return ""
+		}
+		fnNames := []string{}
+		for n := range cfns {
+			fnNames = append(fnNames, n)
+		}
+		sort.Strings(fnNames)
+		for _, fnName := range fnNames {
+			fd := cfns[fnName]
+			if fd.Body == nil || test != "" {
+				continue
+			}
+			// the "otherwise" value: a top-level assignment / declaration / return of a model constant outside the if
+			for idx, st := range fd.Body.List {
+				ifs, isIf := st.(*ast.IfStmt)
+				if !isIf || ifs.Else != nil || len(ifs.Body.List) != 1 {
+					continue
 				}
-				body := ""
-				if len(ifs.Body.List) == 1 {
-					if as, isAs := ifs.Body.List[0].(*ast.AssignStmt); isAs && len(as.Rhs) == 1 {
-						body = exprString(as.Rhs[0])
+				be, isBin := ifs.Cond.(*ast.BinaryExpr)
+				if !isBin || (be.Op != token.EQL && be.Op != token.NEQ) {
+					continue
+				}
+				cv, isConst := consts[exprString(be.Y)]
+				if !isConst || (cv != "6502" && cv != "65C02") {
+					continue
+				}
+				inIf, other := "", ""
+				switch b := ifs.Body.List[0].(type) {
+				case *ast.AssignStmt:
+					if len(b.Rhs) == 1 {
+						inIf = modelOf(b.Rhs[0])
+					}
+					// default: an earlier assignment or declaration in this function
+					for _, prev := range fd.Body.List[:idx] {
+						ast.Inspect(prev, func(x ast.Node) bool {
+							switch v := x.(type) {
+							case *ast.AssignStmt:
+								if len(v.Rhs) == 1 && modelOf(v.Rhs[0]) != "" {
+									other = modelOf(v.Rhs[0])
+								}
+							case *ast.ValueSpec:
+								if len(v.Values) == 1 && modelOf(v.Values[0]) != "" {
+									other = modelOf(v.Values[0])
+								}
+							}
+							return true
+						})
+					}
+				case *ast.ReturnStmt:
+					if len(b.Results) == 1 {
+						inIf = modelOf(b.Results[0])
+					}
+					for _, next := range fd.Body.List[idx+1:] {
+						if r, isRet := next.(*ast.ReturnStmt); isRet && len(r.Results) == 1 && modelOf(r.Results[0]) != "" {
+							other = modelOf(r.Results[0])
+							break
+						}
 					}
 				}
-				test = fmt.Sprintf("%s %s => %s", be.Op.String(), rhs, body)
+				if inIf == "" || other == "" {
+					continue
+				}
+				if be.Op == token.EQL {
+					test = fmt.Sprintf("%s:%s:%s", cv, inIf, other)
+				} else {
+					test = fmt.Sprintf("%s:%s:%s", cv, other, inIf)
+				}
+				break
 			}
-			return true
-		})
-		fmt.Fprintf(&b, "\n/-- the CPU model test of NewCpu: `<op> <constant> => <model assigned when true>` (default Model6502) -/\ndef cpuModelTest : String := %q\n", test)
+		}
+		if test == "" {
+			fail("config.model", "CPU model selection not found in package emuconfig")
+			ok = false
+		}
+		fmt.Fprintf(&b, "\n/-- the CPU model selection: `<Model string>:<cpu model if the configured string equals it>:<cpu model otherwise>` -/\ndef cpuModelTest : String := %q\n", test)
 	} else {
 		fail("config.model", "NewCpu not found")
 		ok = false
@@ -460,12 +521,25 @@ func doMisc(repo, outDir string) {
 	}
 	if fd, found := asm["ParseLabelFile"]; found {
 		used := false
-		ast.Inspect(fd.Body, func(n ast.Node) bool {
-			if c, ok := n.(*ast.CallExpr); ok && strings.HasSuffix(exprString(c.Fun), ".Err") {
-				used = true
+		var look func(f *ast.FuncDecl, depth int)
+		look = func(f *ast.FuncDecl, depth int) {
+			if f == nil || f.Body == nil || depth > 2 {
+				return
 			}
-			return true
-		})
+			ast.Inspect(f.Body, func(n ast.Node) bool {
+				if c, ok := n.(*ast.CallExpr); ok {
+					callee := exprString(c.Fun)
+					if strings.HasSuffix(callee, ".Err") {
+						used = true
+					} else if g, ok := asm[callee]; ok && g != f {
+						// the scan loop may live in a helper
+						look(g, depth+1)
+					}
+				}
+				return true
+			})
+		}
+		look(fd, 0)
 		fmt.Fprintf(&b, "\n/-- assembler.ParseLabelFile consults the scanner's error after the loop -/\ndef labelFileChecksScannerError : Bool := %v\n", used)
 	} else {
 		fail("labels", "ParseLabelFile not found")
@@ -821,57 +895,93 @@ func doMemory(repo, outDir string) {
 	}
 	cfns := funcs(cfiles)
 	specs := [][]string{}
-	if fd, ok := cfns["NewCpu"]; ok {
-		ast.Inspect(fd.Body, func(n ast.Node) bool {
-			sw, ok := n.(*ast.SwitchStmt)
-			if !ok {
-				return true
+	if _, ok := cfns["NewCpu"]; ok {
+		// the switch over the MemSpec string: in NewCpu or in any helper of the package it was moved to
+		fnNames := []string{}
+		for n := range cfns {
+			fnNames = append(fnNames, n)
+		}
+		sort.Strings(fnNames)
+		for _, fnName := range fnNames {
+			fd := cfns[fnName]
+			if fd.Body == nil || len(specs) > 0 {
+				continue
 			}
-			if exprString(sw.Tag) != "c.MemSpec" {
-				return true
-			}
-			for _, cc := range sw.Body.List {
-				clause := cc.(*ast.CaseClause)
-				names := []string{}
-				for _, e := range clause.List {
-					if id, ok := e.(*ast.Ident); ok {
-						if v, ok := consts[id.Name]; ok {
-							names = append(names, v)
-							continue
+			ast.Inspect(fd.Body, func(n ast.Node) bool {
+				sw, ok := n.(*ast.SwitchStmt)
+				if !ok {
+					return true
+				}
+				if sw.Tag == nil || !strings.HasSuffix(exprString(sw.Tag), ".MemSpec") {
+					return true
+				}
+				for _, cc := range sw.Body.List {
+					clause := cc.(*ast.CaseClause)
+					names := []string{}
+					for _, e := range clause.List {
+						if id, ok := e.(*ast.Ident); ok {
+							if v, ok := consts[id.Name]; ok {
+								names = append(names, v)
+								continue
+							}
+						}
+						names = append(names, "?"+exprString(e))
+					}
+					if clause.List == nil {
+						names = []string{"default"}
+					}
+					if len(clause.Body) != 1 {
+						fail("config.memspec", "case body is not a single statement")
+						okAll = false
+						continue
+					}
+					var rhs ast.Expr
+					switch st := clause.Body[0].(type) {
+					case *ast.AssignStmt:
+						if len(st.Rhs) == 1 {
+							rhs = st.Rhs[0]
+						}
+					case *ast.ReturnStmt:
+						if len(st.Results) >= 1 {
+							rhs = st.Results[0]
 						}
 					}
-					names = append(names, "?"+exprString(e))
+					if rhs == nil {
+						fail("config.memspec", "case body is not an assignment or return")
+						okAll = false
+						continue
+					}
+					call, ok := rhs.(*ast.CallExpr)
+					if !ok {
+						fail("config.memspec", "case body is not a constructor call")
+						okAll = false
+						continue
+					}
+					args := []string{}
+					for _, a := range call.Args {
+						as := exprString(a)
+						for _, ch := range as {
+							if !(ch == '.' || ch == ' ' || ch == '+' || ch == '_' || ch >= '0' && ch <= '9' || ch >= 'a' && ch <= 'z' || ch >= 'A' && ch <= 'Z') {
+								// not a literal or a named constant (e.g. a table lookup): the machine built is not readable here
+								fail("config.memspec", "constructor argument is not a literal or constant: "+as)
+								okAll = false
+							}
+						}
+						args = append(args, as)
+					}
+					for _, nm := range names {
+						specs = append(specs, []string{nm, exprString(call.Fun), strings.Join(args, ",")})
+					}
 				}
-				if clause.List == nil {
-					names = []string{"default"}
-				}
-				if len(clause.Body) != 1 {
-					fail("config.memspec", "case body is not a single statement")
-					okAll = false
-					continue
-				}
-				as, ok := clause.Body[0].(*ast.AssignStmt)
-				if !ok || len(as.Rhs) != 1 {
-					fail("config.memspec", "case body is not an assignment")
-					okAll = false
-					continue
-				}
-				call, ok := as.Rhs[0].(*ast.CallExpr)
-				if !ok {
-					fail("config.memspec", "case body is not a constructor call")
-					okAll = false
-					continue
-				}
-				args := []string{}
-				for _, a := range call.Args {
-					args = append(args, exprString(a))
-				}
-				for _, nm := range names {
-					specs = append(specs, []string{nm, exprString(call.Fun), strings.Join(args, ",")})
-				}
-			}
-			return false
-		})
+				return false
+			})
+		}
+		if len(specs) == 0 {
+			// no switch over MemSpec any more (e.g. a table of constructors): this fact cannot be read; the committed
+			// baseline stays in place and the streams that probe the built machines are widened
+			fail("config.memspec", "no switch over MemSpec found in package emuconfig")
+			okAll = false
+		}
 	} else {
 		fail("config.memspec", "NewCpu not found")
 		okAll = false
